@@ -716,6 +716,13 @@ def _r4(ck: Checker, prog: Program):
         got_dict = [v for lits, v in cases if any(same_rel(x, is_dict) for x in lits)]
         got_else = [v for lits, v in cases if any(same_rel(x, negate(is_dict)) for x in lits)]
         okk = len(cases) == 2 and got_dict == [want_dict] and got_else == [t(V)]
+        if not okk and got_dict == [want_dict] and len(cases) == 3:
+            # the converter written out in place for the plain value: tolist(value), or the value itself when that raised
+            TL = sp.Function("tolist")(V)
+            else_cases = [(lits, v) for lits, v in cases if any(same_rel(x, negate(is_dict)) for x in lits)]
+            plain = [v for lits, v in else_cases if not any("raised(" in str(x) and isinstance(x, sp.Eq) for x in lits)]
+            failed = [v for lits, v in else_cases if any("raised(" in str(x) and isinstance(x, sp.Eq) for x in lits)]
+            okk = len(else_cases) == 2 and plain == [TL] and failed == [V]
         why = f"cases {[(str(l_), str(v)) for l_, v in cases]}"
         # the converter: tolist() of the value itself, the value unchanged when that fails
         g = conv[0]
